@@ -5,7 +5,8 @@ Driver for C16, component `gccbwe`.  The model is nondeterministic (oracles), so
 ACCEPTOR: `TRACE …` lines (what the harness observed on the real code after a feedback) are read
 as ops and answered with `accept` / `reject <why>` by `Interceptor.Gcc.accepts`; the remaining
 ops only keep the configuration, the previous target and the closed flag (`fb` prints the
-result class of WriteRTCP, which is deterministic: `nil` while open, `closed` after Close).
+result class of WriteRTCP, which is deterministic: `nil` while open — `invalid` for a report the
+feedback adapter rejects —, `closed` after Close; `gate` blocks / releases the change callback).
 -/
 namespace Interceptor.Driver.Gcc
 open Interceptor.Driver Interceptor.Gcc
@@ -76,10 +77,24 @@ def step (d : DSt) (ts : List String) : DSt × List String :=
   | some "fb" =>
     match natLe fs "base" 65535, lookup fs "kind", lookup fs "a", d.cfg with
     | some _, some kind, some a, some _ =>
+      -- `bad=short|unk`: a TWCC report damaged after it was built (fewer receive deltas than received
+      -- symbols / a chunk of an unknown type): WriteRTCP returns the adapter's error before anything
+      -- reaches the estimator, so the step that follows is one without events
+      let bad := lookup fs "bad"
       if (kind != "twcc" && kind != "8888") || !arrivalsOk a then (d, ["bad-op"])
+      else if bad.isSome && (kind != "twcc" || (bad != some "short" && bad != some "unk") ||
+          (a.splitOn ",").all (· == "x")) then (d, ["bad-op"])   -- a report without a received packet has nothing to damage
       else if d.closed then (d, ["wr err=closed"])
-      else ({ d with pending := true }, ["wr err=nil"])
+      else ({ d with pending := true }, [if bad.isSome then "wr err=invalid" else "wr err=nil"])
     | _, _, _, _ => (d, ["bad-op"])
+  | some "gate" =>
+    -- the change callback blocks (`open=0`) until the harness lets it go (`open=1`): every change is still
+    -- handed to its own callback invocation (`Gcc.publish` appends one per change), so at quiescence nothing is
+    -- late, nothing is still running and the last value handed over is the getter's
+    match lookup fs "open", d.cfg with
+    | some "0", some _ => (d, [])
+    | some "1", some _ => (d, ["quiet ok"])
+    | _, _ => (d, ["bad-op"])
   | some "TRACE" =>
     match d.pending, d.cfg, parseObs fs with
     | true, some c, some (o, mn, mx) =>
